@@ -32,7 +32,14 @@ impl Scheduler {
 
     /// Next connection which is ready to make progress
     pub fn poll(&mut self) -> Option<(ConnectionId, VecDeque<DataRequest>)> {
-        let id = self.readyqueue.pop_front()?;
+        // a connection removed while it was queued is skipped; returning `None` for it would
+        // make the router block on its channel although other connections are ready
+        let id = loop {
+            let id = self.readyqueue.pop_front()?;
+            if self.trackers.contains(id) {
+                break id;
+            }
+        };
         let tracker = self.trackers.get_mut(id)?;
 
         // drain will clear all DataRequest but will keep the allocated memory of our VecDeque.
